@@ -96,6 +96,7 @@ func (Engine) Generate(r *simcore.RNG, tier string, idx int) *simcore.Plan {
 	// square-root price is a short decimal (0.5 0.9 0.99 1.01 1.02 1.1 1.5 2) and round token amounts, so that
 	// liquidities are whole numbers and swaps can consume their input to the last unit exactly on a tick -
 	// the constellations (exact equality on a boundary) that random magnitudes never produce
+	p.Config["jitter"] = int64(r.Intn(2)) // header times with a varying sub-millisecond part
 	round := r.Chance(0.12)
 	if round {
 		p.Config["round"] = 1
@@ -334,6 +335,7 @@ func (Engine) Execute(run *simcore.Run) {
 		mg.Minter.EpochProvisions = osmomath.ZeroDec()
 		gs[minttypes.ModuleName] = cdc.MustMarshalJSON(&mg)
 	}})
+	n.Jitter = p.Cfg("jitter", 0) == 1
 	w := &world{run: run, n: n, users: users, pos: map[uint64]*refPos{}, uptimes: uptimeSet[:nUp], threshold: threshold, round: p.Cfg("round", 0) == 1}
 
 	begin := func(dt time.Duration) bool {
